@@ -1,7 +1,7 @@
 #!/bin/sh
 # usage: tools/try_patch.sh <patch.diff> <ID> [<ID>...]
 # Applies the patch in a scratch worktree of /repo HEAD (never in /repo), runs the checks against it, removes the worktree.
-# Evidence and replays of these runs go to a scratch directory, not to /verif.
+# Evidence and replays of these runs go to a scratch directory, not to /verif. Prints one summary line per check.
 P="$1"; shift
 WT=$(mktemp -d /tmp/mutant-wt-XXXXXX); rmdir "$WT"
 git -C /repo worktree add -q --detach "$WT" HEAD || exit 2
@@ -9,7 +9,11 @@ git -C /repo worktree add -q --detach "$WT" HEAD || exit 2
 OUT=$(mktemp -d /tmp/mutant-out-XXXXXX)
 cd /verif
 for id in "$@"; do
-  VERIF_REPO="$WT" VERIF_OUT="$OUT" ./check "$id" --tier "${TIER:-quick}" 2>&1 | grep -E "VIOLATION|signature=|quick:|thorough:|HARNESS" | head -${LINES_MAX:-8}
+  VERIF_REPO="$WT" VERIF_OUT="$OUT" ./check "$id" --tier "${TIER:-quick}" > "$OUT/$id.log" 2>&1
+  rc=$?
+  sigs=$(grep -o "signature=[^ ]*" "$OUT/$id.log" | sort -u | head -${LINES_MAX:-4} | tr '\n' ' ')
+  echo "RESULT $id exit=$rc $(grep -E "quick:|thorough:" "$OUT/$id.log" | sed 's/.*evaluations/evaluations/') $sigs"
+  grep -E "HARNESS" "$OUT/$id.log" | head -2
 done
 git -C /repo worktree remove --force "$WT"
 rm -rf "$OUT"
